@@ -98,7 +98,11 @@ func vfHistories(env *vfc.Env, prefix string, extra func(c *vfHistCase, sut *vfS
 		if a.Collide > 0 {
 			o.NoRev = false
 		}
-		c.Ops = model.GenHistory(r, c.Keys, o)
+		if a.GC && a.Restart && h%3 == 2 {
+			c.Ops = model.GenGCScenario(r, c.Keys, o)
+		} else {
+			c.Ops = model.GenHistory(r, c.Keys, o)
+		}
 		if a.Collide > 0 {
 			// colliding keys are written with revision 0 only (the shared tree slot has one version counter)
 			for i := range c.Ops {
